@@ -944,7 +944,10 @@ def plan_c08(tier, seed, rng):
             n += 1
     return dict(
         scripts=scripts, validators=[API], tags={'C08', 'HELD'},
-        rule='REACHABLE_TRAD_FS / TRAD_NOFS / SATUR, forward and backward: every initial set x every relation over <2>; seeded (set, relation) pairs over '
+        mc=[('SaturationMC.tla', 'SaturationMC.cfg', {})] + ([('SaturationMC.tla', 'SaturationMC_bug.cfg', {'expect_violation': True})] if tier == 'thorough' else []),
+        rule='model: Saturation.tla - the saturation algorithm with its cross-call recFire cache on a 2-variable domain, every sequence of two calls over 15 relations '
+             'x 9 initial sets returns the least fixed point when the cache key includes the at-or-below relation (and TLC refutes the key without it); '
+             'implementation: REACHABLE_TRAD_FS / TRAD_NOFS / SATUR, forward and backward: every initial set x every relation over <2>; seeded (set, relation) pairs over '
              '<3>, <2,2>, <3,2>, <2,3>, <2,2,2> with relation families sparse / dense / self-loops / dead ends; boolean sets, MT-integer distance and EV+ '
              'distance functions (NOFS and SATUR); relation forests identity-, fully- and quasi-reduced; calls are issued in sequence in the same forests '
              'with nothing cleared in between; all algorithms on one (set, relation) write into the same result forest so that their results are compared '
